@@ -268,12 +268,13 @@ func guarded(f func()) string {
 // region SUT ////////////////////////////////////////////////////////////////////////////////////
 
 type listSUT struct {
-	mk    func() lst
-	n     int
-	lists [2]lst
-	hs    []elem       // 1..n, nil = id free
-	ids   map[elem]int // reverse table
-	dead  bool         // a call hung: the object is abandoned
+	threadsafe bool
+	mk         func() lst
+	n          int
+	lists      [2]lst
+	hs         []elem       // 1..n, nil = id free
+	ids        map[elem]int // reverse table
+	dead       bool         // a call hung: the object is abandoned
 
 	// bookkeeping of the recorder only (chooses stimuli inside what the model explores; it never
 	// influences what is observed): birth list, removed, orphaned by Init, list tainted
@@ -288,7 +289,7 @@ func init() {
 		return &listSUT{mk: func() lst { return &hiveList{ds.NewList[int](true)} }}
 	})
 	core.Register("List.threadsafe", func() core.SUT {
-		return &listSUT{mk: func() lst { return &hiveList{ds.NewList[int]()} }}
+		return &listSUT{threadsafe: true, mk: func() lst { return &hiveList{ds.NewList[int]()} }}
 	})
 	core.Register("List.go", func() core.SUT {
 		return &listSUT{mk: func() lst { return &goList{stdlist.New()} }}
@@ -605,6 +606,110 @@ func (s *listSUT) st() any {
 	}
 	return core.Ev{"l1": s.lst(s.lists[0]), "l2": s.lst(s.lists[1]), "h": hs}
 }
+
+// Scenario (thread-safe flavour): an iteration over a list during which ANOTHER goroutine calls a mutator of the
+// same list (started from the callback's at-th call, which gives it 4 ms to finish).  Every call of the
+// thread-safe list is one atomic step, so the iteration has seen the list either as it was before the mutator
+// or as it is after it: the two calls are logged in that order (iteration first iff what it saw is the order
+// the list had before), each with the state observed at that point, and the model decides.
+func (s *listSUT) Scenario(r *rand.Rand) []core.Ev {
+	if !s.threadsafe || s.dead || s.taint[0] || s.taint[1] {
+		return nil
+	}
+	li := 1 + r.Intn(2)
+	l := s.lists[li-1]
+	var own []int
+	for _, i := range s.handles() {
+		if s.owns(li, i) && !s.stale[i] {
+			own = append(own, i)
+		}
+	}
+	if len(own) < 2 || l.Len() < 2 {
+		return nil
+	}
+	h, p := own[r.Intn(len(own))], own[r.Intn(len(own))]
+	var m core.Ev
+	switch c := r.Intn(10); {
+	case c < 4:
+		m = core.Ev{"op": core.Pick(r, "MoveBefore", "MoveAfter"), "l": li, "h": h, "p": p}
+	case c < 6:
+		m = core.Ev{"op": core.Pick(r, "MoveToFront", "MoveToBack"), "l": li, "h": h}
+	case c < 7:
+		m = core.Ev{"op": "Remove", "l": li, "h": h}
+	case c < 9 && s.free() > 0:
+		m = core.Ev{"op": core.Pick(r, "InsertBefore", "InsertAfter", "PushFront", "PushBack"), "l": li, "v": 1 + r.Intn(2), "p": p}
+	default:
+		m = core.Ev{"op": "MoveBefore", "l": li, "h": h, "p": p}
+	}
+	fwd := r.Intn(2) == 0
+	at := 1 + r.Intn(l.Len())
+	iterate := func(cb func(int) error) {
+		if fwd {
+			_ = l.ForEach(cb)
+		} else {
+			_ = l.ForEachReverse(cb)
+		}
+	}
+	before := []int{}
+	iterate(func(v int) error { before = append(before, v); return nil })
+	pre := s.st()
+	var mres, mst any
+	done := make(chan struct{})
+	vis, cnt := []int{}, 0
+	x := guarded(func() {
+		iterate(func(v int) error {
+			cnt++
+			vis = append(vis, v)
+			if cnt == at {
+				go func() {
+					defer close(done)
+					defer func() {
+						if r := recover(); r != nil {
+							mres, mst = res("PANIC", 0), nil
+						}
+					}()
+					mres, mst = s.Apply(m)
+				}()
+				select {
+				case <-done:
+				case <-time.After(4 * time.Millisecond):
+				}
+			}
+			if cnt > 64 {
+				return errStop // (an iteration that does not end is cut off)
+			}
+			return nil
+		})
+	})
+	select {
+	case <-done:
+	case <-time.After(5 * time.Second):
+		x = "HANG"
+	}
+	op := "ForEachReverse"
+	if fwd {
+		op = "ForEach"
+	}
+	it := core.Ev{"op": op, "l": li, "k": 99, "res": res(x, core.Seq(vis))}
+	if x != "ok" {
+		s.dead = true
+		it["st"] = core.Ev{"hang": true}
+		return []core.Ev{it}
+	}
+	ml := core.Ev{}
+	for k, v := range m {
+		ml[k] = v
+	}
+	ml["res"], ml["st"] = mres, mst
+	if fmt.Sprint(vis) == fmt.Sprint(before) {
+		it["st"] = pre
+		return []core.Ev{it, ml}
+	}
+	it["st"] = mst
+	return []core.Ev{ml, it}
+}
+
+func (s *listSUT) Dead() bool { return s.dead }
 
 // endregion /////////////////////////////////////////////////////////////////////////////////////
 
